@@ -171,10 +171,38 @@ SEEDS4 = {
     "C06-8": ("C06", ["C06", "C16"], "Main wraps the persistence in a latestCache: Set publishes the checkpoint to readers, then calls the real Set", "a read landing between the cache publish and the COMMIT, plus a SIGKILL in the same window"),
 }
 SEEDS2.update(SEEDS4)
+SEEDS5 = {
+    "C01-7": ("C01", ["C07", "C01"], "sql.getLatestCheckpoint via Query/rows.Next without rows.Err (row-fetch failure read as NotFound = first use)", "SQL storage, a log with a stored checkpoint, a failure exactly at driver.Rows.Next while the following write succeeds"),
+    "C01-8": ("C01", ["C05", "C01"], "inmemory: map of pointers; snapshots alias the live state and expectAndWrite writes through the pointer", "in-memory store, two updates of one log that both open their write op before either stores, with forked checkpoints"),
+    "C02-7": ("C02", ["C02", "C03", "C09", "C16", "C12"], "witness: case-tolerant log-ID lookup (exact, then lower-cased) while persistence gets the raw ID", "an unconfigured upper-cased spelling of a configured ID"),
+    "C02-8": ("C02", ["C04", "C02", "C08"], "witness.parse returns a note rebuilt from cp.Marshal()+extensions instead of the verified text", "a correctly signed checkpoint spelt non-canonically (leading-zero size, non-zero base64 trailing bits)"),
+    "C03-7": ("C03", ["C03", "C08"], "the cosigned-note readability check moved into a deferred closure that runs after the commit", "an otherwise acceptable checkpoint arriving with 99/100 signature lines"),
+    "C03-8": ("C03", ["C03"], "Update runs the work in a goroutine and returns (nil, ctx.Err()) when the context ends first; the goroutine commits anyway", "the request context ending while an acceptable update is between its checks and its Set"),
+    "C04-7": ("C04", ["C04", "C10"], "same-size refresh re-cosigns and returns the STORED note (nextNote = prevNote) instead of the submitted one", "an accepted update, then a same-size same-root refresh whose text differs (other extension lines)"),
+    "C04-8": ("C04", ["C16", "C04"], "http server reply helper passes the checkpoint as a format string", "a '%' anywhere in the stored note, read through HTTP GET"),
+    "C05-7": ("C05", ["C05"], "inmemory expectAndWrite copies the new checkpoint into the replaced entry's backing array (append(got.rawChkpt[:0], ...))", "two overlapping updates of one log where the winner's cosigned checkpoint has exactly the byte length of the one it replaces"),
+    "C05-8": ("C05", ["C05"], "a refresh whose Set is refused re-opens the write handle and stores again without re-reading", "in-memory store, a refresh and a growth of one log overlapping, the growth storing first"),
+    "C07-7": ("C07", ["C07"], "(same mechanism as C07-5, written independently) rows.Next without rows.Err", "a fault at driver.Rows.Next"),
+    "C07-8": ("C07", ["C07"], "(same mechanism as C07-6, written independently) UPDATE-then-INSERT with a shadowed err", "first use, a fault on the second Exec only"),
+    "C08-7": ("C08", ["C08"], "parse() refuses notes over 16 KiB; the stored note is the submitted one plus the witness lines", "a submitted note whose length lies in the ~117-byte window just under 16 KiB"),
+    "C08-8": ("C08", ["C08"], "signChkpt counts signature lines instead of re-opening the note; the witness's own lines are recognised by NAME only", "exactly 100 lines in total, one of them carrying the witness's name with a foreign key hash"),
+    "C10-7": ("C10", ["C10", "C11"], "parseBody decodes proof lines in place into bufio's read buffer (hashes alias the buffer)", "a non-empty proof and a body over 4096 bytes or delivered in more than one read"),
+    "C10-8": ("C10", ["C10", "C04"], "same size + empty proof returns (prevRaw, nil) without re-signing", "an accepted checkpoint, then the same size and root with different extension lines"),
+    "C13-7": ("C13", ["C13"], "submitToWitness marks errors matching context.Canceled/DeadlineExceeded as permanent (inspects the error, not its own context)", "a per-request timeout from the witness or the log while the feeder's context is alive"),
+    "C13-8": ("C13", ["C13"], "FeedOnce verifies a whitespace-trimmed copy of the checkpoint but submits the raw bytes", "a correctly signed checkpoint followed by stray whitespace"),
+    "C15-7": ("C15", ["C15"], "DistributeOnce collects failed logs with failed := d.logs[:0]; append (in-place filter over the configured list)", "two DistributeOnce calls on one Distributor; in the first a failure after an earlier success"),
+    "C15-8": ("C15", ["C15"], "distributeForLog verifies with note.Open + signedBy instead of log.ParseCheckpoint (origin and body checks lost)", "two logs sharing one key with the witness returning the other's checkpoint, or a re-signed note with a foreign origin / non-checkpoint body"),
+    "C18-7": ("C18", ["C18", "C14"], "sumdb fetchProof assigns sdb = sdb.WithContext(ctx) to the captured client; later /latest fetches use a cancelled context", "periodic mode and at least three distinct log sizes in one FeedLog call"),
+    "C18-8": ("C18", ["C18", "C19"], "HTTPFetcher reuses a mutex-guarded buffer; the error return after a failed body read leaves the mutex held", "one 200 response whose body read fails (truncated/lying length), then any further fetch on that client"),
+    "C09-7": ("C09", ["C09", "C08", "C04"], "the equal-size rule compares the signed TEXT with the stored text instead of the root hashes", "stored = submitted = old size, identical roots, a body that is not byte-identical (other extension lines)"),
+    "C09-8": ("C09", ["C09", "C08"], "proof-length pre-check with a bound computed in floating point (ceil(log2(float64(size)))+1)", "a submitted size just above a large power of two (2^k + d, k >= 49, small d), an odd stored size, a correct proof"),
+}
+SEEDS2.update(SEEDS5)
+ROUND5 = {'C01', 'C02', 'C03', 'C04', 'C05', 'C07', 'C08', 'C09', 'C10', 'C13', 'C15', 'C18'}
 SRC = {}
 for _sid in SEEDS2:
     _pid, _k = _sid.split("-")
-    SRC[_sid] = f"/tmp/seed2/{_pid}/_out/{int(_k) - 2}" if int(_k) <= 4 else (f"/tmp/seed3/{_pid}/_out/{int(_k) - 4}" if int(_k) <= 6 else f"/tmp/seed4/{_pid}/_out/{int(_k) - 6}")
+    SRC[_sid] = f"/tmp/seed2/{_pid}/_out/{int(_k) - 2}" if int(_k) <= 4 else (f"/tmp/seed3/{_pid}/_out/{int(_k) - 4}" if int(_k) <= 6 else (f"/tmp/seed5/{_pid}/_out/{int(_k) - 6}" if _pid in ROUND5 else f"/tmp/seed4/{_pid}/_out/{int(_k) - 6}"))
 SEEDS.update(SEEDS2)
 
 
@@ -218,28 +246,31 @@ def evaluate(ids, tier="quick", seed=None, confirm=True):
         wt = f"/tmp/seedwt.{os.getpid()}"
         sh(["git", "-C", "/repo", "worktree", "add", "--detach", wt, "HEAD"])
         try:
+            if not confirm and "confirmed" in meta:
+                sh(["git", "apply", os.path.join(dst, "patch.diff")], cwd=wt)
             demo = open(os.path.join(dst, "demo_test.go.txt")).read()
             m = re.search(r"copy to:\s*`?([^\s`]+)", demo[:600], re.I)
             dest = m.group(1).rstrip("/") if m else ""
             tests = "|".join(re.findall(r"func (Test\w+)\(", demo))
-            demo_path = os.path.join(wt, dest, "zz_seed_demo_test.go")
-            res = {}
-            shutil.copy(os.path.join(dst, "demo_test.go.txt"), demo_path)
-            rc, _ = sh(f"go test -vet=off -count=1 -run '^({tests})$' ./{dest}/", cwd=wt)
-            res["demo_without_change"] = "pass" if rc == 0 else "FAIL"
-            os.remove(demo_path)
-            rc, out = sh(["git", "apply", os.path.join(dst, "patch.diff")], cwd=wt)
-            res["patch_applies"] = rc == 0
-            rc, _ = sh("go build ./...", cwd=wt)
-            res["builds"] = rc == 0
-            rc, out = sh("go test -vet=off -count=1 ./...", cwd=wt)
-            res["existing_suite_with_change"] = "pass" if rc == 0 else "FAIL"
-            shutil.copy(os.path.join(dst, "demo_test.go.txt"), demo_path)
-            rc, _ = sh(f"go test -vet=off -count=1 -run '^({tests})$' ./{dest}/", cwd=wt)
-            res["demo_with_change"] = "fail (as intended)" if rc != 0 else "PASSES (seed invalid)"
-            os.remove(demo_path)
-            res["commands"] = [f"git apply patch.diff", "go build ./...", "go test -vet=off -count=1 ./...", f"go test -vet=off -count=1 -run '^({tests})$' ./{dest}/  (with and without the change)"]
-            meta["confirmed"] = res
+            if confirm or "confirmed" not in meta:
+                demo_path = os.path.join(wt, dest, "zz_seed_demo_test.go")
+                res = {}
+                shutil.copy(os.path.join(dst, "demo_test.go.txt"), demo_path)
+                rc, _ = sh(f"go test -vet=off -count=1 -run '^({tests})$' ./{dest}/", cwd=wt)
+                res["demo_without_change"] = "pass" if rc == 0 else "FAIL"
+                os.remove(demo_path)
+                rc, out = sh(["git", "apply", os.path.join(dst, "patch.diff")], cwd=wt)
+                res["patch_applies"] = rc == 0
+                rc, _ = sh("go build ./...", cwd=wt)
+                res["builds"] = rc == 0
+                rc, out = sh("go test -vet=off -count=1 ./...", cwd=wt)
+                res["existing_suite_with_change"] = "pass" if rc == 0 else "FAIL"
+                shutil.copy(os.path.join(dst, "demo_test.go.txt"), demo_path)
+                rc, _ = sh(f"go test -vet=off -count=1 -run '^({tests})$' ./{dest}/", cwd=wt)
+                res["demo_with_change"] = "fail (as intended)" if rc != 0 else "PASSES (seed invalid)"
+                os.remove(demo_path)
+                res["commands"] = [f"git apply patch.diff", "go build ./...", "go test -vet=off -count=1 ./...", f"go test -vet=off -count=1 -run '^({tests})$' ./{dest}/  (with and without the change)"]
+                meta["confirmed"] = res
             det = meta.get("detection", {})
             for chk in meta["checks_expected_to_catch"]:
                 t0 = time.time()
@@ -273,4 +304,4 @@ if __name__ == "__main__":
         for a in sys.argv[2:]:
             if a.startswith("--seed="):
                 seed = int(a.split("=")[1])
-        evaluate(ids or sorted(os.listdir(SEEDED)), tier, seed)
+        evaluate(ids or sorted(os.listdir(SEEDED)), tier, seed, confirm="--noconfirm" not in sys.argv)
